@@ -62,6 +62,18 @@ pub fn c08_reach() -> i32 {
     // two-level nesting through a generic: Root -> Wrap<Leaf> (param + field)
     cases.push(("nested generic", registry(vec![u8t(), leaf("m::Leaf"), u8t(), ty("m::Root", vec![], composite(vec![field(Some("a"), 5, Some("Wrap<Leaf>"))])), leaf("m::Other"),
         ty("m::Wrap", vec![("T", Some(1))], composite(vec![field(Some("inner"), 1, Some("T"))]))]), vec!["m::Leaf", "m::Root", "m::Wrap"]));
+    // a skipped type parameter (no type id) must not stop the traversal of the fields
+    cases.push(("skipped type parameter", registry(vec![u8t(), leaf("m::Leaf"), u8t(), ty("m::Root", vec![], composite(vec![field(Some("a"), 5, Some("Mid<S>"))])), leaf("m::Other"),
+        ty("m::Mid", vec![("S", None)], composite(vec![field(Some("inner"), 1, Some("Leaf"))]))]), vec!["m::Leaf", "m::Mid", "m::Root"]));
+    // a tuple element whose own type has generated types below it
+    cases.push(("tuple of struct with children", registry(vec![u8t(), leaf("m::Leaf"), ty("", vec![], tuple(vec![5, 0])), ty("m::Root", vec![], composite(vec![field(Some("a"), 2, Some("(Outer, u8)"))])), leaf("m::Other"),
+        ty("m::Outer", vec![], composite(vec![field(Some("inner"), 1, Some("Leaf"))]))]), vec!["m::Leaf", "m::Outer", "m::Root"]));
+    cases.push(("empty array", registry(vec![u8t(), leaf("m::Leaf"), ty("", vec![], arr(0, 1)), ty("m::Root", vec![], composite(vec![field(Some("a"), 2, Some("[Leaf; 0]"))])), leaf("m::Other")]), vec!["m::Leaf", "m::Root"]));
+    // a variant whose first field is already visited and whose second field is reachable nowhere else
+    cases.push(("variant: visited field before a new one", registry(vec![u8t(), leaf("m::Leaf"), u8t(), ty("m::Root", vec![], composite(vec![field(Some("first"), 1, Some("Leaf")), field(Some("second"), 5, Some("Choice"))])), leaf("m::Other"),
+        ty("m::Choice", vec![], variant(vec![("V", 0, vec![field(Some("a"), 1, Some("Leaf")), field(Some("b"), 6, Some("OnlyHere"))])])), leaf("m::OnlyHere")]), vec!["m::Choice", "m::Leaf", "m::OnlyHere", "m::Root"]));
+    // self-referential list: Cons(Box<List>, Item)
+    cases.push(("self-referential variant", registry(vec![u8t(), leaf("m::Leaf"), u8t(), ty("m::Root", vec![], variant(vec![("Nil", 0, vec![]), ("Cons", 1, vec![field(None, 3, Some("Box<Root>")), field(None, 1, Some("Leaf"))])])), leaf("m::Other")]), vec!["m::Leaf", "m::Root"]));
     let mut tried = 0;
     let mut found = None;
     for (name, reg, expect) in cases {
@@ -105,19 +117,19 @@ pub fn c08_compactas() -> i32 {
                 break 'o;
             }
             for n in 0..4usize {
-                for named in [false, true] {
+                for named in [false, true] { for boxed in [false, true] { for compact in [false, true] {
                     let kind = if n == 0 { CompositeIRKind::NoFields } else if named {
-                        CompositeIRKind::Named((0..n).map(|i| (syn::parse_str(&format!("f{i}")).unwrap(), CompositeFieldIR::new(if i == 0 { mk(k, p) } else { mk(0, 3) }, false, false))).collect())
+                        CompositeIRKind::Named((0..n).map(|i| (syn::parse_str(&format!("f{i}")).unwrap(), CompositeFieldIR::new(if i == 0 { mk(k, p) } else { mk(0, 3) }, compact, boxed))).collect())
                     } else {
-                        CompositeIRKind::Unnamed((0..n).map(|i| CompositeFieldIR::new(if i == 0 { mk(k, p) } else { mk(0, 3) }, false, false)).collect())
+                        CompositeIRKind::Unnamed((0..n).map(|i| CompositeFieldIR::new(if i == 0 { mk(k, p) } else { mk(0, 3) }, compact, boxed)).collect())
                     };
                     tried += 1;
                     let want = n == 1 && uint;
                     if kind.could_derive_as_compact() != want {
-                        found = Some((format!("{} composite with {n} field(s), first of kind {k} over {:?}", if named { "named" } else { "unnamed" }, PRIMS[p]), format!("could_derive_as_compact returned {}", !want)));
+                        found = Some((format!("{} composite with {n} field(s) (is_boxed={boxed}, is_compact={compact}), first of kind {k} over {:?}", if named { "named" } else { "unnamed" }, PRIMS[p]), format!("could_derive_as_compact returned {}", !want)));
                         break 'o;
                     }
-                }
+                } } }
             }
         }
     }
